@@ -634,6 +634,11 @@ def extra_checks(ctx, cases_, impl_lines, model_lines_):
                 # "90 Minutes", a bare number = seconds): C20's interval literals
                 + xcheck.borrow(ctx, "C20", "the trigger's interval is what the configured literal says",
                                 lambda c: c[0] == 1, n=1500, seed_salt=11)
+                # a rotation the trigger asked for happens - also in the `background_rotation` build while the previous
+                # rotation is still running (C05's bursts on that build, some with a slow first rotation)
+                + xcheck.borrow(ctx, "C05", "a requested rotation is carried out, however long the previous one takes",
+                                lambda c: isinstance(c[1], list) and len(c[1]) > 5 and c[1][0] == 1 and c[1][5] == 1
+                                and any(o[0] == 2 and sum(len(t) for t in o[1]) >= 4 for o in c[4]), n=80, seed_salt=59)
                 # ... and literals that do not start with an ASCII digit or contain non-ASCII text (never a panic)
                 + xcheck.borrow(ctx, "C20", "an interval literal with non-ASCII text is an error, not a panic",
                                 lambda c: c[0] == 1 and c[1] in (2, 3) and any(x > 127 for x in c[2]), n=600, seed_salt=53))
